@@ -278,7 +278,7 @@ FAMILIES = (
                W('with', f'with {C_SMALL_RAZ}:')),
         returns=(A('return a', 'a'), A('return b', 'b')),
         maxdepth=2,
-        sizes={'quick': (4, 5), 'thorough': (6, None)},
+        sizes={'quick': (4, None), 'thorough': (5, None)},
         n_pool={'quick': [2, 5], 'thorough': [1, 2, 3, 5, 8]},
         aim='with blocks whose context is built from a run-time argument (precision / grid given by n), directly '
             'under the declared function context and nested inside a statically known with: all-constant inexact '
